@@ -412,6 +412,10 @@ class Spectrum(object):
 
         # If sides is indeed different, update the psd
         if self.__psd is not None:
+            if self.modified is True:
+                # the stored PSD is obsolete: update it first (this resets
+                # sides to the default) so that we convert an up-to-date PSD
+                self.psd
             newpsd = self.get_converted_psd(sides)
             self.__psd = newpsd
         self.__sides = sides
@@ -573,6 +577,9 @@ class Spectrum(object):
             the psd on the fly, change the attribute :attr:`sides`.
 
         """
+        if self.__psd is None or self.modified is True:
+            # make sure that the stored PSD (and its sides) is up-to-date
+            self.psd
         if sides == self.sides:
             #nothing to be done is sides = :attr:`sides
             return self.__psd
